@@ -2,8 +2,15 @@
 //! instruction wrappers (trap-and-emulate in one user process, DESIGN.md §1.1 and §4).
 //! Decides C11(c,d) C12 C13 C14 C15 C16 C17 C18 C20(a).
 
+mod c11;
+mod c12;
+mod c13;
+mod c14;
+mod c15;
+mod c16;
 mod c17;
 mod c18;
+mod c20;
 
 use usim::driver::{main_driver, Engine, Replay, Stats, Violation};
 
@@ -18,6 +25,13 @@ impl Engine for CpuSim {
     }
     fn gen(&self, seed: u64, focus: &str) -> Replay {
         match focus {
+            "C11" => c11::gen(seed),
+            "C14" => c14::gen(seed),
+            "C15" => c15::gen(seed),
+            "C20" => c20::gen(seed),
+            "C12" => c12::gen(seed),
+            "C13" => c13::gen(seed),
+            "C16" => c16::gen(seed),
             "C17" => c17::gen(seed),
             "C18" => c18::gen(seed),
             _ => {
@@ -28,6 +42,13 @@ impl Engine for CpuSim {
     }
     fn run(&self, rp: &Replay, st: &mut Stats) -> Option<Violation> {
         match rp.property.as_str() {
+            "C11" => c11::run(rp, st),
+            "C14" => c14::run(rp, st),
+            "C15" => c15::run(rp, st),
+            "C20" => c20::run(rp, st),
+            "C12" => c12::run(rp, st),
+            "C13" => c13::run(rp, st),
+            "C16" => c16::run(rp, st),
             "C17" => c17::run(rp, st),
             "C18" => c18::run(rp, st),
             p => {
@@ -38,6 +59,13 @@ impl Engine for CpuSim {
     }
     fn simplify(&self, rp: &Replay) -> Vec<Replay> {
         match rp.property.as_str() {
+            "C11" => c11::simplify(rp),
+            "C14" => c14::simplify(rp),
+            "C15" => c15::simplify(rp),
+            "C20" => c20::simplify(rp),
+            "C12" => c12::simplify(rp),
+            "C13" => c13::simplify(rp),
+            "C16" => c16::simplify(rp),
             "C17" => c17::simplify(rp),
             "C18" => c18::simplify(rp),
             _ => vec![],
